@@ -23,6 +23,23 @@ def _reserialisation_differs(v, m):
     return bool(v["sig"].get("reser_differs")) and not v["sig"].get("check_zero") and v["sig"].get("kind") in m.get("pdu_kinds", [])
 
 
+def _reserialisation_differs_at(v, m):
+    """D11 narrowed to the places where it is known: the received covered bits differ from the re-serialised PDU only at wire positions listed
+    for this PDU kind and for this outcome (accepted with equal / with different field values)"""
+    sig = v["sig"]
+    if not sig.get("reser_differs") or sig.get("check_zero"):
+        return False
+    per_kind = m.get("positions", {}).get(sig.get("kind"))
+    if per_kind is None or sig.get("fields") not in per_kind:
+        return False
+    allowed = set(per_kind[sig["fields"]])
+    if sig["fields"] == "different" and set(sig.get("flipped") or []) & set(per_kind.get("format", [])):
+        # the injected pattern changes the PDU's format field: the word is then parsed as another format, whose uncarried bits are dropped too
+        allowed |= set(per_kind["equal"])
+    pos = sig.get("reser_pos")
+    return bool(pos) and set(pos) <= allowed
+
+
 def _always(v, m):
     return True
 
@@ -35,6 +52,7 @@ PREDICATES = {
     "received_check_field_is_zero": _received_check_field_is_zero,
     "reserialisation_differs_from_received": _reserialisation_differs,
     "sig_equals": _sig_equals,
+    "reserialisation_differs_at_listed_positions": _reserialisation_differs_at,
 }
 
 
